@@ -35,7 +35,7 @@ CPPManifest::~CPPManifest() {}
 //@extract src/cppparser/cppManifest.cxx CPPManifest::CPPManifest ordinal=0 "subst1=@_parser\(parser\)@_parser((CPPPreprocessor *)&parser)@"
 //@extract src/cppparser/cppManifest.cxx CPPManifest::parse_parameters
 // R15: `"literal" + s` -> `std::string("literal") + s` (the front end does not find the free operator+ for a char array)
-//@extract src/cppparser/cppManifest.cxx CPPManifest::extract_args "osubst1=@\((\"[^\"]*\") \+ @(std::string(\1) + @" "subst2=@_parser\.warning@_parser->warning@"
+//@extract src/cppparser/cppManifest.cxx CPPManifest::extract_args r15 "subst2=@_parser\.warning@_parser->warning@"
 //@extract src/cppparser/cppManifest.cxx CPPManifest::stringify
 
 static void any_text(std::string &s, size_t minlen) {
